@@ -2,6 +2,7 @@
    Only statements, `exact`, and Print Assumptions live here. *)
 From CV Require Import Base Consts Token PostAction Env Loop.
 From CVP Require Import PostAction_proofs Loop_frames C09_proofs.
+From CVP Require Import C09_last.
 Open Scope N_scope.
 
 (* `a | b` is the common value when both are equal and Reregister otherwise (all 16 pairs) *)
@@ -46,3 +47,23 @@ Example C09_nonvacuous :
                CAct (AFdWrite 10 1); CDispatch 0%Z []] in
   halted (run scr (fun _ => []) cmds) = false /\ pending (run scr (fun _ => []) cmds) = Continue.
 Proof. split; [split; reflexivity|]. vm_compute. split; reflexivity. Qed.
+
+(* Several requests by the running source on itself inside one callback: each replaces what was pending, nothing is merged and
+   nothing is applied on the spot - the LAST one is what the end of the event's processing applies (unless the callback's own return
+   value overrides it, C09_return_overrides_pending). Holds in any state in which the handle names the running source. *)
+Theorem C09_last_deferred_request_wins : forall s h, self_handle s h ->
+  pending (exec_action (exec_action s (AUpdate h)) (ADisable h)) = Disable /\
+  pending (exec_action (exec_action s (ADisable h)) (AUpdate h)) = Reregister /\
+  pending (exec_action (exec_action s (ADisable h)) (ADisable h)) = Disable /\
+  pending (exec_action (exec_action s (AUpdate h)) (AUpdate h)) = Reregister.
+Proof. exact last_deferred_request_wins. Qed.
+Theorem C09_self_request_only_sets_pending : forall s h, self_handle s h ->
+  exec_action s (AUpdate h) = emit (set_pending s Reregister) (op_line OP_UPDATE h ROk) /\
+  exec_action s (ADisable h) = emit (set_pending s Disable) (op_line OP_DISABLE h ROk).
+Proof. intros s h H. split; [exact (self_update_exact s h H)|exact (self_disable_exact s h H)]. Qed.
+Example C09_self_handle_nonvacuous :
+  let s := set_running (exec_action init (AInsert 1 (SComp false None [mkGen 10 (mkInt true false) Level None false] None))) (Some (1, mkTok 0 0 0)) in
+  self_handle s 1 /\ pending (exec_action (exec_action s (AUpdate 1)) (ADisable 1)) = Disable.
+Proof. exact self_handle_somewhere. Qed.
+Print Assumptions C09_last_deferred_request_wins.
+Print Assumptions C09_self_request_only_sets_pending.
